@@ -85,6 +85,17 @@ def derive_base(repo):
     else:
         raise FlagError("Get_results: unrecognised return expression `%s` (line %d)" % (_src(r), ret.lineno))
     fl["get_results_line"] = ret.lineno
+    # a pure read assigns no attribute of the simulation (a cache written by Get_results is state)
+    writes = []
+    for n in ast.walk(gr):
+        tg = n.targets if isinstance(n, ast.Assign) else ([n.target] if isinstance(n, (ast.AugAssign, ast.AnnAssign)) else [])
+        for t in tg:
+            for x in ast.walk(t):
+                if _is_self_attr(x):
+                    writes.append("%s (line %d)" % (_src(t), n.lineno))
+    fl["get_results_stateless"] = not writes
+    if writes:
+        fl["get_results_writes"] = writes
     gsrc = _src(gr)
     disk_branch = any(isinstance(n, ast.If) and re.search(r"isinstance\(\w+, str\)", _src(n.test)) for n in ast.walk(gr))
     if not disk_branch:
@@ -208,7 +219,26 @@ def derive_class(repo, cname):
                     elif "results[" in s:
                         binds[s] = True
     restore_binds = bool(binds) and not any(".copy()" in s for s in binds)
-    return {"stored": stored, "unsaved_internal": unsaved, "reads": sorted(reads), "restore_binds": restore_binds,
+    # the restore must not be guarded by the CONTENT of the entry (an empty / zero state is a state)
+    guarded = []
+    for n in ast.walk(si):
+        if isinstance(n, ast.If):
+            t = _src(n.test)
+            if re.fullmatch(r"results is None", t) or "self.algo" in t or "resetAll" in t:
+                continue
+            body_writes = [x for b_ in n.body for x in ast.walk(b_)
+                           if (isinstance(x, ast.Assign) and any(_is_self_attr(tt) for tt in x.targets))
+                           or (isinstance(x, ast.Call) and _src(x.func) == "self._Set_solutions")]
+            if body_writes:
+                guarded.append("if %s: (line %d)" % (t, n.lineno))
+    copy_keys = set()
+    for n in ast.walk(si):
+        if isinstance(n, ast.Assign) and any(_is_self_attr(t) for t in n.targets) and ".copy()" in _src(n.value):
+            copy_keys |= set(re.findall(r"results(?:\.get\(|\[)['\"]([A-Za-z_]+)['\"]", _src(n.value)))
+            for nm in [x.id for x in ast.walk(n.value) if isinstance(x, ast.Name)]:
+                for srcs in local.get(nm, []):
+                    copy_keys |= set(re.findall(r"results(?:\.get\(|\[)['\"]([A-Za-z_]+)['\"]", srcs))
+    return {"restore_copy_keys": sorted(copy_keys), "guarded_restore": guarded,"stored": stored, "unsaved_internal": unsaved, "reads": sorted(reads), "restore_binds": restore_binds,
             "line_save": sv.lineno, "line_set": si.lineno}
 
 
@@ -234,67 +264,184 @@ def gen_coq(base, classes):
         extra = len(c["unsaved_internal"])
         nf = len(keys) + extra
         stl = st + [False] * extra
-        cfgs[aname] = {"nf": nf, "stored": stl, "save_copies": copies, "restore_binds": c["restore_binds"], "keys": keys,
+        cfgs[aname] = {"restore_copy_fields": [i for i, k in enumerate(keys) if k in c.get("restore_copy_keys", [])], "nf": nf, "stored": stl, "save_copies": copies, "restore_binds": c["restore_binds"], "keys": keys,
                        "unsaved_internal": c["unsaved_internal"]}
         lines.append("Definition cfg_%s : config := mkcfg %d [%s] %s %s %s %s %s." % (
             aname, nf, "; ".join(b(x) for x in stl), b(copies), b(c["restore_binds"]), b(base["deep_read"]), b(base["solve_rebinds"]), b(base["pin_folder"])))
         names.append("cfg_%s" % aname)
     lines.append("Definition all_cfgs : list config := [%s]." % "; ".join(names))
     lines.append("Definition restores_mesh : bool := %s." % b(base["restores_mesh"]))
+    lines.append("Definition get_results_stateless : bool := %s." % b(base["get_results_stateless"]))
+    lines.append("Definition restores_unconditionally : bool := %s." % b(not any(classes[c]["guarded_restore"] for c in classes)))
     return "\n".join(lines) + "\n", cfgs
 
 
 # ------------------------------------------------------------------------------------------
 # case generation
 # ------------------------------------------------------------------------------------------
-def gen_case(rng, cid, aname, nfields_model, nkeys, length, allow):
-    ops = []
-    tok = [10]
+class Hist:
+    """bookkeeping shared by the random and the directed generators: which iteration the live state
+    currently IS (base), and the tokens of the first Solve that continued from each iteration"""
 
-    def toks():
-        t = [tok[0] + k for k in range(nfields_model)]
-        tok[0] += 10
+    def __init__(self, nf, nkeys):
+        self.ops, self.nf, self.nkeys = [], nf, nkeys
+        self.tok, self.wtok, self.niter, self.nh = 10, 1, 0, 0
+        self.base = None
+        self.cont = {}
+        self.after_restore = False
+        self.no_write_after_restore = ()   # fields Set_Iter restores BY COPY (the model binds every field: gap)
+
+    def toks(self):
+        t = [self.tok + k for k in range(self.nf)]
+        self.tok += 10
         return t
-    niter = 0
-    nh = 0
-    ops.append(["Solve", toks()])
-    wtok = 1
+
+    def solve(self):
+        t = self.toks()
+        if self.base is not None and self.base not in self.cont:
+            self.cont[self.base] = t
+        self.ops.append(["Solve", t])
+        self.base = None
+
+    def save(self):
+        self.ops.append(["SaveIter"])
+        self.base = self.niter
+        self.niter += 1
+
+    def restore(self, i, how="SetIter", replay=False):
+        """how: SetIter | SetIterNeg (index given as i, emitted as -(niter-i))"""
+        if how == "SetIterNeg":
+            self.ops.append(["SetIterNeg", self.niter - i])
+        else:
+            self.ops.append(["SetIter", i])
+        self.base = i
+        self.nh = self.nkeys
+        self.after_restore = True
+        if replay and i in self.cont:
+            # the Solve that originally continued iteration i, replayed from the restored state
+            self.ops.append(["Solve", self.cont[i]])
+            self.base = None
+
+    def setmesh(self):
+        self.ops.append(["SetMesh"])
+        self.base = None
+
+
+def gen_case(rng, cid, aname, nfields_model, nkeys, length, allow, copy_fields=()):
+    h = Hist(nfields_model, nkeys)
+    h.no_write_after_restore = tuple(copy_fields)
+    ops = h.ops
+    if rng.random() < 0.3 and "presave" in allow:
+        h.save()            # the initial state saved before anything was solved
+    h.solve()
     for _ in range(length):
         r = rng.random()
+        niter = h.niter
         if niter == 0 or r < 0.16:
             if rng.random() < 0.6:
-                ops.append(["Solve", toks()])
-            ops.append(["SaveIter"])
-            niter += 1
-        elif r < 0.28:
-            ops.append(["Solve", toks()])
-        elif r < 0.40:
+                h.solve()
+            h.save()
+        elif r < 0.27:
+            h.solve()
+        elif r < 0.38:
             ops.append(["SetFolder", rng.choice([0, 0, 1, 2, 3])])
-        elif r < 0.55:
-            i = rng.randrange(niter) if rng.random() < 0.93 else niter + rng.randrange(2)
-            ops.append(["GetResults", i])
-            nh = nkeys
+        elif r < 0.52:
+            if rng.random() < 0.35:
+                ops.append(["GetResultsNeg", rng.choice([1, 1, 2, niter, niter + 1]) if rng.random() < 0.9 else niter + 2])
+            else:
+                ops.append(["GetResults", rng.randrange(niter) if rng.random() < 0.93 else niter + rng.randrange(2)])
+            h.nh = nkeys
+            h.after_restore = False
         elif r < 0.68:
-            i = rng.randrange(niter) if rng.random() < 0.95 else niter
-            ops.append(["SetIter", i])
-            nh = nkeys
+            if rng.random() < 0.1:
+                ops.append(["SetIter", niter])   # out of range: rejected, nothing changes
+            else:
+                i = rng.randrange(niter)
+                h.restore(i, "SetIterNeg" if rng.random() < 0.4 else "SetIter", replay=rng.random() < 0.5)
         elif r < 0.76:
-            ops.append(["ResultQ", rng.randrange(niter), rng.randrange(nkeys)])
-            nh = 1
+            if rng.random() < 0.4:
+                k = rng.randrange(1, niter + 1)
+                ops.append(["ResultQNeg", k, rng.randrange(nkeys)])
+                h.base = niter - k
+            else:
+                i = rng.randrange(niter)
+                ops.append(["ResultQ", i, rng.randrange(nkeys)])
+                h.base = i
+            h.nh = 1
+            h.after_restore = False
         elif r < 0.86:
-            if "write" in allow and nh:
-                ops.append(["WriteRet", rng.randrange(nh), wtok])
-                wtok += 1
+            if "write" in allow and h.nh:
+                k = rng.randrange(h.nh)
+                if not (h.after_restore and k in h.no_write_after_restore):
+                    ops.append(["WriteRet", k, h.wtok])
+                    h.wtok += 1
+                    h.base = None
         elif r < 0.93:
             if "setmesh" in allow:
-                ops.append(["SetMesh"])
-                ops.append(["Solve", toks()])
+                h.setmesh()
+                h.solve()
         else:
             if "saveload" in allow:
                 ops.append(["SaveLoad", rng.choice([1, 2, 4])])
-                nh = 0
-    # always finish with a restore of a random iteration
-    ops.append(["SetIter", rng.randrange(niter)])
+                h.nh = 0
+    h.restore(rng.randrange(h.niter))
+    return {"id": cid, "sim": aname, "ops": ops}
+
+
+def gen_directed(rng, cid, aname, nf, nkeys, kind, allow):
+    """structured histories the uniform generator reaches too rarely"""
+    h = Hist(nf, nkeys)
+    ops = h.ops
+    if kind == "meshes" and "setmesh" in allow:
+        # several meshes in one history; go back to a NON-latest mesh before assigning a new one
+        h.solve(); h.save()
+        nm = rng.choice([2, 3])
+        for _ in range(nm):
+            h.setmesh(); h.solve(); h.save()
+            if rng.random() < 0.4:
+                h.solve(); h.save()
+        h.restore(rng.randrange(h.niter - 1), replay=rng.random() < 0.5)
+        h.setmesh(); h.solve(); h.save()
+        h.restore(h.niter - 1, "SetIterNeg")
+        for _ in range(3):
+            h.restore(rng.randrange(h.niter), rng.choice(["SetIter", "SetIterNeg"]), replay=rng.random() < 0.5)
+            if rng.random() < 0.5:
+                ops.append(["ResultQ", rng.randrange(h.niter), rng.randrange(nkeys)])
+        if rng.random() < 0.5:
+            h.setmesh(); h.solve(); h.save(); h.restore(rng.randrange(h.niter))
+    elif kind == "virgin" or (kind == "meshes"):
+        # the untouched state is an iteration like any other: saved before the first Solve, restored after
+        # the history has moved far away from it, and continued again
+        if "presave" in allow:
+            h.save()
+        for _ in range(rng.choice([2, 3, 4])):
+            h.solve(); h.save()
+        h.restore(0, replay=True)
+        h.restore(h.niter - 1, "SetIterNeg", replay=False)
+        h.restore(rng.randrange(h.niter), replay=True)
+        h.solve(); h.save()
+        h.restore(0, "SetIterNeg", replay=True)
+        ops.append(["ResultQ", 0, 0])
+    else:
+        # "last": read the most recent iterations through negative / default indices while the run goes on,
+        # on disk, across a folder change, then in memory
+        plan = [rng.choice([1, 2, 3]), rng.choice([1, 2, 3]), rng.choice([1, 2]), 0]
+        for seg, f in enumerate(plan[:rng.choice([3, 4])]):
+            ops.append(["SetFolder", f])
+            for _ in range(rng.choice([2, 3])):
+                h.solve(); h.save()
+                c = rng.random()
+                if c < 0.5:
+                    h.restore(h.niter - 1, "SetIterNeg")
+                elif c < 0.75:
+                    ops.append(["GetResultsNeg", 1])
+                else:
+                    ops.append(["ResultQNeg", 1, rng.randrange(nkeys)]); h.base = h.niter - 1
+                if h.niter >= 2 and rng.random() < 0.6:
+                    ops.append(["GetResultsNeg", 2])
+                    if rng.random() < 0.5:
+                        h.restore(h.niter - 2, "SetIterNeg")
+        h.restore(rng.randrange(h.niter), replay=True)
     return {"id": cid, "sim": aname, "ops": ops}
 
 
@@ -304,6 +451,8 @@ def coq_op(o):
         return "Solve [%s]%%N" % "; ".join(str(t) for t in o[1])
     if n in ("SaveIter", "SetMesh"):
         return n
+    if n == "ResultQNeg":
+        return "ResultQNeg %d %d" % (o[1], o[2])
     if n == "WriteRet":
         return "WriteRet %d %d%%N" % (o[1], o[2])
     return "%s %s" % (n, " ".join(str(x) for x in o[1:]))
@@ -427,6 +576,7 @@ def run(ctx):
         gen, cfgs = gen_coq(base, classes)
         open(os.path.join(ctx.build, "Gen_C15.v"), "w").write(gen)
         ctx.cov["derived_flags"] = base
+        ctx.cov["guarded_restores"] = {c: classes[c]["guarded_restore"] for c in classes if classes[c]["guarded_restore"]}
         ctx.cov["derived_configs"] = {k: {kk: vv for kk, vv in v.items()} for k, v in cfgs.items()}
         aux_alias = {c: [k for k, (kind, s) in classes[c]["stored"].items() if kind == "alias"] for c in classes}
         ctx.cov["aux_entries_stored_without_copy"] = {c: v for c, v in aux_alias.items() if v}
@@ -455,24 +605,30 @@ def run(ctx):
         ctx.obligation("all_fields_stored(current source)", r3.ok, json.dumps(unsaved))
     # ---- 3. correspondence
     quick = ctx.tier == "quick"
-    per = 5 if quick else 22
+    per = 4 if quick else 18
+    ndirected = 3 if quick else 9
     length = 14 if quick else 22
     cases = []
     cid = 0
     unsupported = {"WeakForms_static": ("SetMesh", "SaveLoad"), "InElastic": ("SetMesh",)}
     for (aname, cname, keys) in CONFIGS:
         nf_model = cfgs[aname]["nf"] if base is not None else len(keys)
+        full = {"write", "setmesh", "saveload", "presave"}
+        if aname == "WeakForms_static":
+            full -= {"setmesh", "saveload"}
+        if aname == "InElastic":
+            full -= {"setmesh"}
         for j in range(per):
-            allow = {"write", "setmesh", "saveload"}
+            allow = set(full)
             if j % 3 == 1:
                 allow.discard("write")   # pure histories: restore must be exact
-            if aname == "WeakForms_static":
-                allow -= {"setmesh", "saveload"}
-            if aname == "InElastic":
-                allow -= {"setmesh"}
             if aname in ("Beam_static", "InElastic") and j % 2 == 0:
                 allow.discard("saveload")
-            cases.append(gen_case(ctx.rng, cid, aname, nf_model, len(keys), length, allow))
+            cases.append(gen_case(ctx.rng, cid, aname, nf_model, len(keys), length, allow,
+                                  cfgs[aname]["restore_copy_fields"] if base is not None else ()))
+            cid += 1
+        for j in range(ndirected):
+            cases.append(gen_directed(ctx.rng, cid, aname, nf_model, len(keys), ["meshes", "virgin", "last"][j % 3], full))
             cid += 1
     probes = ["phasefield_history", "inelastic_state", "algo_change", "init_shared", "save_then_folder_change", "phasefield_save"]
     req = {"root": os.path.join(ctx.build, "scratch"), "cases": cases, "probes": probes}
@@ -524,6 +680,16 @@ def run(ctx):
                 what = "%s: %s at op %d: %s" % (c["sim"], k, f["step"], json.dumps(d)[:200])
                 exp = "after Set_Iter(i) / Result(iter=i) / Get_results(i): fields, mesh and results bitwise equal to the ghost copies taken at Save_Iter i"
                 ks = [k]
+            elif k == "continuation-differs" and cls == "PhaseField":
+                key = "history-not-restored:PhaseField:resetAll=False"
+                what = "PhaseField (History solver): the Solve replayed after Set_Iter(i) differs from the Solve that originally continued iteration i (history field not stored/restored): %s" % json.dumps(d)[:200]
+                exp = "same continuation"
+                ks = [k]
+            elif k in ("continuation-differs", "restore-internal"):
+                key = "%s:%s" % (k, cls)
+                what = "%s: after restoring an iteration, %s at op %d: %s" % (c["sim"], "the committed internal variables are not those current at Save_Iter" if k == "restore-internal" else "the replayed continuation Solve differs from the original one", f["step"], json.dumps(d)[:200])
+                exp = "internal variables bitwise equal to the ghost taken at Save_Iter; the same Solve from the restored iteration reproduces the original continuation (1e-9 relative)"
+                ks = [k]
             elif k == "get-results-impure":
                 key = "get-results-impure:%s" % cls
                 what = "%s: Get_results(%d) changed the simulation state" % (c["sim"], d["iter"])
@@ -557,8 +723,8 @@ def run(ctx):
             continue
         # ---- model vs implementation on the final observation
         m = model.get(c["id"])
-        if m is None:
-            continue
+        if m is None or any(f["kind"] == "continuation-differs" for f in r["fails"]):
+            continue   # (a differing continuation is reported above; tokens are then no longer comparable)
         fin = r["final"]
         cfg = cfgs[c["sim"]]
         nk = len(cfg["keys"])
@@ -567,7 +733,7 @@ def run(ctx):
         def same(tok, h, iszero):
             if tok == 0:
                 return iszero
-            return reg.get(str(tok)) == h
+            return h in (reg.get(str(tok)) or [])
         dif = []
         if [m[0][0], m[0][1], m[0][2]] != [fin["mesh"], fin["nmesh"], fin["niter"]]:
             dif.append("mesh/nmesh/niter model %s impl %s" % (m[0], [fin["mesh"], fin["nmesh"], fin["niter"]]))
@@ -601,11 +767,12 @@ def run(ctx):
     if mism:
         c, d = mism[0]
         ctx.violation("corr:model-vs-impl:%s" % c["sim"].split("_")[0], "model and implementation disagree on the final observation of %s: %s" % (c["sim"], "; ".join(d[:3])),
-                      {"case": c, "differences": d[:10], "model": model.get(c["id"]), "replay_py": REPLAY_CASE % dict(verif=common.VERIF, req={"cases": [c], "probes": []}, kinds=["store-changed", "restore-fields", "restore-mesh", "result-value", "get-results-value", "get-results-impure", "save-load", "crash"], after=None, expected="the property predicates hold on this op list (the disagreement is then a modelling gap)")},
+                      {"case": c, "differences": d[:10], "model": model.get(c["id"]), "replay_py": REPLAY_CASE % dict(verif=common.VERIF, req={"cases": [c], "probes": []}, kinds=["store-changed", "restore-fields", "restore-mesh", "restore-internal", "continuation-differs", "result-value", "get-results-value", "get-results-impure", "save-load", "crash"], after=None, expected="the property predicates hold on this op list (the disagreement is then a modelling gap)")},
                       found_input=False)
     ctx.obligation("corr:property-predicates", not seen_keys, "; ".join(sorted(seen_keys))[:600])
     for key, (c, ks, what, exp, aft) in sorted(seen_keys.items()):
-        small = shrink(ctx, c, ks, script, aft) if len(seen_keys) <= 5 else c
+        known = common.load_known()
+        small = shrink(ctx, c, ks, script, aft) if (len(seen_keys) <= 6 and (ctx.pid, key) not in known) else c
         ctx.violation(key, what, {"case": small, "replay_py": REPLAY_CASE % dict(verif=common.VERIF, req={"cases": [small], "probes": []}, kinds=ks, expected=exp, after=aft)}, found_input=True)
     # ---- 4. probes
     P = impl["probes"]
